@@ -13,6 +13,7 @@ import networkx as nx
 from hypergraph.viz._common import (
     build_output_to_producer_map,
     build_param_to_consumer_map,
+    get_visible_representative,
     is_descendant_of,
     is_node_visible,
 )
@@ -166,7 +167,8 @@ def add_merged_output_edges(
             if is_source_container and is_source_expanded and value_name:
                 internal_producer = output_to_producer.get(value_name)
                 if internal_producer and internal_producer != source and is_descendant_of(internal_producer, source, flat_graph):
-                    actual_source = internal_producer
+                    # a producer inside a still-collapsed inner container is drawn as that container
+                    actual_source = get_visible_representative(internal_producer, flat_graph, expansion_state)
                 else:
                     internal_source = find_internal_producer_for_output(source, value_name, flat_graph, expansion_state)
                     if internal_source:
@@ -288,6 +290,9 @@ def add_separate_output_edges(
 
                 if is_source_container and is_source_expanded:
                     actual_producer = output_to_producer.get(value_name, source)
+                    if actual_producer != source and is_descendant_of(actual_producer, source, flat_graph):
+                        # a producer inside a still-collapsed inner container is drawn as that container
+                        actual_producer = get_visible_representative(actual_producer, flat_graph, expansion_state)
                     data_value = value_name
                     if actual_producer == source:
                         internal_producer = find_internal_producer_for_output(source, value_name, flat_graph, expansion_state)
